@@ -2,6 +2,7 @@ package main
 
 import (
 	"fmt"
+	"go/types"
 	"strings"
 
 	"golang.org/x/tools/go/ssa"
@@ -33,11 +34,10 @@ func runC02(c *Ctx, r *Report, tier string) {
 	po := c.mustFn(r, "(*Parser).parseOption")
 	ps := c.mustFn(r, "(*Parser).parseShort")
 	so := c.mustFn(r, "splitOption")
-	ssc := c.mustFn(r, "(*Parser).splitShortConcatArg")
 	set := c.mustFn(r, "(*Option).Set")
 	uq := c.mustFn(r, "unquoteIfPossible")
 	ivv := c.mustFn(r, "(*Option).isValidValue")
-	if po == nil || ps == nil || so == nil || ssc == nil || set == nil || uq == nil || ivv == nil {
+	if po == nil || ps == nil || so == nil || set == nil || uq == nil || ivv == nil {
 		return
 	}
 	pon := c.fname(po)
@@ -231,40 +231,51 @@ func runC02(c *Ctx, r *Report, tier string) {
 		r.Check(g && gl && gs, "SPLIT", son, "long: pos ≥ 0; short: pos == width of the first character", c.ipos(ret), "REQ((islong ∧ pos ≥ 0) ∨ (¬islong ∧ pos == DecodeRune width))", fmt.Sprintf("pos-guard=%v long-side=%v short-side=%v", g, gl, gs))
 	}
 
-	// RUNES
-	sn := c.fname(ssc)
+	// RUNES: the concatenated short form (-xVALUE). The rules are stated over parseShort with splitShortConcatArg
+	// looked through (transparentKnown), so they hold whether the split lives in the helper or in parseShort itself.
+	cs := c.concatSplit(ps)
+	psn0 := c.fname(ps)
 	wTerm, lTerm := "call:unicode/utf8.DecodeRuneInString(P2)#1", "len(P2)"
-	optTerm := "lookup(lookup.shortNames(&parseState.lookup(P1)), conv[string](call:unicode/utf8.DecodeRuneInString(P2)#0))"
-	for _, ret := range returnsOf(ssc) {
-		t0 := c.term(ret.Results[0])
-		if t0 == "P2" {
-			// the token is left whole only for one of the three documented reasons (or because it is at most one byte long)
-			reasons := anyLit(litEq(wTerm, lTerm, true), litIs("nonnil("+optTerm+")", false), litIs("call:(*Option).canArgument("+optTerm+")", false),
-				litEq("len(P2)", "1", true), litEq("len(P2)", "0", true), litIs("lt(len(P2), 2)", true), litIs("lt(1, len(P2))", false))
-			path, g := c.Requires(ssc, isInstr(ret), reasons, nil)
-			r.Check(g, "RUNES", sn, "left whole only when single-rune, unknown, or not argument-taking", c.ipos(ret), "REQ(width == len ∨ option == nil ∨ ¬canArgument())", "the concatenated argument of an argument-taking short option is not split off on the path "+pathStr(path))
-			continue
+	firstT := "conv[string](call:unicode/utf8.DecodeRuneInString(P2)#0)"
+	optTerm := "lookup(lookup.shortNames(&parseState.lookup(P1)), " + firstT + ")"
+	if cs.clusterV == nil || cs.split == nil {
+		r.Fail("RUNES", psn0, "concatenated-argument split", c.pos(ps.Pos()), cs.why)
+	} else {
+		S := cs.split
+		r.Check(len(cs.otherSlices) == 0, "RUNES", psn0, "attached argument starts after the first rune", c.ipos(S), "first = string(rune), argument = optname[width:]", "the attached argument is cut at "+strings.Join(cs.otherSlices, ", ")+" instead of the first rune's encoded width")
+		{
+			path, g := c.Requires(ps, isInstr(S), anyLit(litEq(wTerm, lTerm, false), litIs("lt("+wTerm+", "+lTerm+")", true)), nil)
+			r.Check(g, "RUNES", psn0, "split only when something follows the first rune", c.ipos(S), "REQ(width of the first rune ≠ len(optname))", "a lone multi-byte short option gets an empty attached argument: "+pathStr(path))
 		}
 		{
-			path, g := c.Requires(ssc, isInstr(ret), anyLit(litEq(wTerm, lTerm, false), litIs("lt("+wTerm+", "+lTerm+")", true)), nil)
-			r.Check(g, "RUNES", sn, "split only when something follows the first rune", c.ipos(ret), "REQ(width of the first rune ≠ len(optname))", "a lone multi-byte short option gets an empty attached argument: "+pathStr(path))
+			_, g := c.Requires(ps, isInstr(S), litIs("call:(*Option).canArgument("+optTerm+")", true), nil)
+			r.Check(g, "RUNES", psn0, "split only when the first rune names an argument-taking option", c.ipos(S), "REQ(lookup(first).canArgument())", "the concatenated argument is split off without checking that the first rune takes an argument")
 		}
-		okF := t0 == "conv[string](call:unicode/utf8.DecodeRuneInString(P2)#0)"
-		okA := false
-		if al, ok := ret.Results[1].(*ssa.Alloc); ok {
-			stores, _ := c.cellStores(al)
-			for _, st := range stores {
-				if c.term(st.Val) == "slice(P2, call:unicode/utf8.DecodeRuneInString(P2)#1, _)" {
-					okA = true
-				}
+		c.reqRule(r, "CLUSTER", ps, S, "concatenated form considered only without an inline argument", litHas(false, "nonnil(P3)"), "argument == nil", nil)
+		// the names walked afterwards: the whole token, or the first rune alone — the latter exactly together with the split
+		reasons := anyLit(litIs("nonnil(P3)", true), litEq(wTerm, lTerm, true), litIs("nonnil("+optTerm+")", false), litIs("call:(*Option).canArgument("+optTerm+")", false),
+			litEq("len(P2)", "1", true), litEq("len(P2)", "0", true), litIs("lt(len(P2), 2)", true), litIs("lt(1, len(P2))", false))
+		nWhole, nFirst := 0, 0
+		for _, o := range c.originsOf(cs.clusterV, cs.rng) {
+			switch o.Term {
+			case "P2":
+				nWhole++
+				r.Check(c.reqAt(ps, o, reasons), "RUNES", psn0, "left whole only when single-rune, unknown, or not argument-taking", c.ipos(o.At), "REQ(inline argument ∨ width == len ∨ option == nil ∨ ¬canArgument())", "the concatenated argument of an argument-taking short option is not split off on some path to "+c.ipos(o.At))
+			case firstT:
+				nFirst++
+				ok := c.reqAt(ps, o, litIs("call:(*Option).canArgument("+optTerm+")", true)) && c.reqAt(ps, o, anyLit(litEq(wTerm, lTerm, false), litIs("lt("+wTerm+", "+lTerm+")", true)))
+				r.Check(ok, "RUNES", psn0, "the first rune stands alone exactly when its argument was split off", c.ipos(o.At), "first = string(rune) under the split's conditions", "the cluster is reduced to its first rune without the split's conditions")
+			default:
+				r.Fail("RUNES", psn0, "names walked by the cluster loop", c.ipos(o.At), "the cluster can be "+trunc(o.Term, 80)+": neither the token nor its first rune")
 			}
 		}
-		r.Check(okF && okA, "RUNES", sn, "attached argument starts after the first rune", c.ipos(ret), "first = string(rune), argument = optname[width:]", fmt.Sprintf("first=%s argument-by-width=%v", trunc(t0, 60), okA))
-		_, g := c.Requires(ssc, isInstr(ret), litHas(true, "call:(*Option).canArgument(lookup(lookup.shortNames(&parseState.lookup(P1)), conv[string](call:unicode/utf8.DecodeRuneInString(P2)#0)))"), nil)
-		r.Check(g, "RUNES", sn, "split only when the first rune names an argument-taking option", c.ipos(ret), "REQ(lookup(first).canArgument())", "the concatenated argument is split off without checking that the first rune takes an argument")
+		r.Check(nWhole >= 1 && nFirst >= 1, "RUNES", psn0, "cluster is the token or its first rune", c.pos(ps.Pos()), "both forms occur", fmt.Sprintf("whole=%d first=%d", nWhole, nFirst))
 	}
 	psn := c.fname(ps)
-	cluster := "phi{P2 | call:(*Parser).splitShortConcatArg(P0, P1, P2)#0}"
+	cluster := "phi{P2 | " + firstT + "}"
+	if cs.clusterV != nil {
+		cluster = c.term(cs.clusterV)
+	}
 	lastLit := "eq((runepos(" + cluster + ") + call:unicode/utf8.RuneLen(runeat(" + cluster + "))), len(" + cluster + "))"
 	for _, in := range c.instrs(ps, c.isCallTo("(*Parser).parseOption")) {
 		call := in.(*ssa.Call)
@@ -301,7 +312,7 @@ func runC02(c *Ctx, r *Report, tier string) {
 				if back && !isConstNil(e) {
 					okA = false
 				}
-				if !back && c.term(e) != "phi{P3 | call:(*Parser).splitShortConcatArg(P0, P1, P2)#1}" {
+				if !back && !cs.isEntryArgument(c, e) {
 					okA = false
 				}
 			}
@@ -318,7 +329,7 @@ func runC02(c *Ctx, r *Report, tier string) {
 				if l, has := c.edgeLitTo(pred, ap.Block()); has && (l.Pos && (l.Term == "eq(0, runepos("+cluster+"))" || l.Term == "eq(runepos("+cluster+"), 0)") || !l.Pos && l.Term == "nonzero(runepos("+cluster+"))") {
 					first = true
 				}
-				if c.term(e) != "phi{P3 | call:(*Parser).splitShortConcatArg(P0, P1, P2)#1}" || !first {
+				if !cs.isEntryArgument(c, e) || !first {
 					okA = false
 				}
 			}
@@ -332,10 +343,6 @@ func runC02(c *Ctx, r *Report, tier string) {
 			ok := strings.HasPrefix(t, "!(Option.OptionalArgument(lookup(lookup.longNames(") && !strings.Contains(t, "phi{")
 			r.Check(ok, "CLUSTER", c.fname(pl), "a long option takes the next token exactly when its argument is not optional", c.ipos(in), "canarg = ¬option.OptionalArgument", "canarg is "+trunc(t, 160)+": an option with an optional argument can swallow the following token")
 		}
-	}
-	// splitShortConcatArg only when no inline argument
-	for _, in := range c.instrs(ps, c.isCallTo("(*Parser).splitShortConcatArg")) {
-		c.reqRule(r, "CLUSTER", ps, in, "concatenated form considered only without an inline argument", litHas(false, "nonnil(P3)"), "argument == nil", nil)
 	}
 	// next token only when canarg
 	for _, in := range c.instrs(po, c.isCallTo("(*parseState).pop")) {
@@ -356,8 +363,8 @@ func runC02(c *Ctx, r *Report, tier string) {
 		}
 	}
 	// UNIT over the spelling functions
-	scope := map[*ssa.Function]bool{so: true, ssc: true, ps: true, po: true}
-	for _, n := range []string{"argumentIsOption", "argumentStartsOption", "stripOptionPrefix", "(*Parser).parseLong"} {
+	scope := map[*ssa.Function]bool{so: true, ps: true, po: true}
+	for _, n := range []string{"argumentIsOption", "argumentStartsOption", "stripOptionPrefix", "(*Parser).parseLong", "(*Parser).splitShortConcatArg"} {
 		if f := c.Fn(n); f != nil {
 			scope[f] = true
 		}
@@ -435,4 +442,100 @@ func argSourcesOnly(t string) bool {
 		}
 	}
 	return real
+}
+
+// concatSplit locates, in parseShort with splitShortConcatArg looked through, the pieces of the -xVALUE split:
+// the store that cuts the attached argument off the token, the value the cluster loop ranges over, and the range.
+type concatSplitInfo struct {
+	split       *ssa.Store
+	cell        *ssa.Alloc
+	otherSlices []string
+	clusterV    ssa.Value
+	rng         ssa.Instruction
+	why         string
+}
+
+func (c *Ctx) concatSplit(ps *ssa.Function) *concatSplitInfo {
+	cs := &concatSplitInfo{}
+	for _, b := range ps.Blocks {
+		for _, in := range b.Instrs {
+			if rg, ok := in.(*ssa.Range); ok {
+				if bt, ok := rg.X.Type().Underlying().(*types.Basic); ok && bt.Info()&types.IsString != 0 {
+					cs.clusterV, cs.rng = rg.X, in
+				}
+			}
+		}
+	}
+	if cs.clusterV == nil {
+		// a manual decoding loop: the string handed to DecodeRuneInString inside a loop of parseShort
+		for _, l := range loopsOf(ps) {
+			for b := range l.Blocks {
+				for _, in := range b.Instrs {
+					if call, ok := in.(*ssa.Call); ok && c.calleeName(call.Common()) == "unicode/utf8.DecodeRuneInString" {
+						if sl, ok := call.Call.Args[0].(*ssa.Slice); ok {
+							cs.clusterV, cs.rng = sl.X, in
+						}
+					}
+				}
+			}
+		}
+	}
+	if cs.clusterV == nil {
+		cs.why = "no loop over the runes of the cluster found in parseShort"
+		return cs
+	}
+	want := "slice(P2, call:unicode/utf8.DecodeRuneInString(P2)#1, _)"
+	for _, b := range c.blocks(ps) {
+		for _, in := range b.Instrs {
+			st, ok := in.(*ssa.Store)
+			if !ok {
+				continue
+			}
+			al, ok := st.Addr.(*ssa.Alloc)
+			if !ok || relType(c, al.Type()) != "*string" {
+				continue
+			}
+			t := c.term(st.Val)
+			if t == want {
+				cs.split, cs.cell = st, al
+			} else if strings.HasPrefix(t, "slice(P2, ") {
+				cs.otherSlices = append(cs.otherSlices, t)
+			}
+		}
+	}
+	if cs.split == nil {
+		cs.why = "no store of optname[width of the first rune:] into an argument cell found"
+		if len(cs.otherSlices) > 0 {
+			cs.why = "the attached argument is cut at " + strings.Join(cs.otherSlices, ", ") + " instead of the first rune's encoded width"
+		}
+	}
+	return cs
+}
+
+// isEntryArgument: v is the argument the cluster loop starts with — the inline argument, the cell of the
+// concatenated one, or (where neither applies) nil — and nothing else.
+func (cs *concatSplitInfo) isEntryArgument(c *Ctx, v ssa.Value) bool {
+	seenCell, seenInline := false, false
+	ok := true
+	seen := map[ssa.Value]bool{}
+	var walk func(v ssa.Value)
+	walk = func(v ssa.Value) {
+		if seen[v] {
+			return
+		}
+		seen[v] = true
+		for _, o := range c.originsOf(v, nil) {
+			switch {
+			case o.Val == ssa.Value(cs.cell):
+				seenCell = true
+			case o.Term == "P3":
+				seenInline = true
+			case o.Term == "nil":
+			default:
+				ok = false
+			}
+		}
+	}
+	walk(v)
+	return ok && seenCell && seenInline
 }
